@@ -171,6 +171,7 @@ package PVM
 //@ pred inner_wf(input) = input.Addition.RefineArgs.IntegratedPVMMap != nil && allkeys(h, input.Addition.RefineArgs.IntegratedPVMMap, input.Addition.RefineArgs.IntegratedPVMMap[h].Memory.Pages != nil && all(pg, uint32, has(input.Addition.RefineArgs.IntegratedPVMMap[h].Memory.Pages, pg) ==> pg >= 16 && pg < 1048576 && input.Addition.RefineArgs.IntegratedPVMMap[h].Memory.Pages[pg] != nil && len(input.Addition.RefineArgs.IntegratedPVMMap[h].Memory.Pages[pg].Value) == 4096))
 //@ func peek
 //@   props C33 C07 C04
+//@   opt skipcover=1
 //@   requires vm: hc_vm(input)
 //@   requires inner: inner_wf(input)
 //@   ensures oog: old(*input.VM.Gas) < 10 ==> output.ExitReason == ExitOOG && *input.VM.Gas == old(*input.VM.Gas) - 10 && frame_only(*input.VM.Gas)
@@ -181,6 +182,7 @@ package PVM
 
 //@ func poke
 //@   props C33 C07 C04
+//@   opt skipcover=1
 //@   requires vm: hc_vm(input)
 //@   requires inner: inner_wf(input)
 //@   ensures oog: old(*input.VM.Gas) < 10 ==> output.ExitReason == ExitOOG && *input.VM.Gas == old(*input.VM.Gas) - 10 && frame_only(*input.VM.Gas)
